@@ -819,7 +819,31 @@ def too_big(case):
     for v in vals:
         if kind(v) == "int" and 1 < v < 2 ** 62:
             prod *= v
-    return any(kind(a) in ("str", "list", "tuple") and len(a) * prod > 10 ** 5 for a in vals)
+    if any(kind(a) in ("str", "list", "tuple") and len(a) * prod > 10 ** 5 for a in vals):
+        return True
+    if len(vals) == 3 and case["ops"][1] == "*":
+        # the count (or the repeated string) can be the RESULT of the first operator
+        mid = py_mid(case["ops"][0], vals[0], vals[1])
+        for x, y in ((mid, vals[2]), (vals[2], mid)):
+            if kind(x) == "int" and kind(y) in ("str", "list", "tuple") and 10 ** 5 < len(y) * x < 2 ** 62:
+                return True
+    return False
+
+
+def py_mid(sp, a, b):
+    """value of the inner `a OP b` of a triple where it can matter for the size guard (ints, strings); else None"""
+    ka, kb = kind(a), kind(b)
+    try:
+        if ka == kb == "int":
+            return {"+": a + b, "-": a - b, "*": a * b}.get(sp) if sp in "+-*" else (a // b if sp == "/" else a % b if sp == "mod" else None)
+        if ka == kb == "str" and sp == "+":
+            return a + b
+        if sp == "*" and {ka, kb} == {"int", "str"}:
+            s_, n = (a, b) if ka == "str" else (b, a)
+            return s_ * n if len(s_) * n <= 10 ** 5 else None
+    except (ZeroDivisionError, OverflowError, MemoryError):
+        return None
+    return None
 
 
 def observe(im, case):
